@@ -4,15 +4,18 @@
 #   defer : `defer func() {}()` as the first statement (results get spilled into slots, a recover block appears,
 #           closures are renumbered)
 #   call  : `func() {}()` as the first statement (an extra call of a rulio closure on every path)
+#   log   : (package core only) `Log(DEBUG, nil, "fuzz")` as the first statement (an extra logging call, which takes
+#           no lock for a nil context, in every function)
 # Every check must stay silent (exit 0).  A VIOLATION or UNDECIDED here is a fragility of the checker.
 cd "$(dirname "$0")/.."
 export GOFLAGS=-mod=mod GOPROXY=off GOSUMDB=off GOTOOLCHAIN=local; unset GOWORK
-MODES=${1:-all}; [ "$MODES" = all ] && MODES="defer call"
+MODES=${1:-all}; [ "$MODES" = all ] && MODES="defer call log"
 RC=0
 for M in $MODES; do
   SCR=$(mktemp -d /tmp/fzb.XXXXXX); mkdir -p $SCR/verif; rsync -a --exclude .git /repo/ $SCR/repo/; cp known_findings.txt $SCR/verif/
-  case $M in defer) STMT='defer func() {}()';; call) STMT='func() {}()';; esac
-  for f in $(cd $SCR/repo && ls core/*.go sys/*.go cron/*.go service/*.go crolt/*.go storage/bolt/*.go | grep -v _test.go); do
+  FILES="core/*.go sys/*.go cron/*.go service/*.go crolt/*.go storage/bolt/*.go"
+  case $M in defer) STMT='defer func() {}()';; call) STMT='func() {}()';; log) STMT='Log(DEBUG, nil, "fuzz")'; FILES="core/state_indexed.go core/state_linear.go core/state.go core/events.go core/query.go core/actions.go core/match.go core/patternindex.go core/termindex.go core/breaker.go core/javascript.go";; esac
+  for f in $(cd $SCR/repo && ls $FILES | grep -v _test.go | grep -v "core/log.go" | grep -v "core/loggers.go"); do
     sed -i -E "/^func .*\{\$/a\\	$STMT" $SCR/repo/$f
   done
   if ! (cd $SCR/repo && go build ./... >/dev/null 2>&1); then echo "$M BUILD-FAILED"; RC=1; rm -rf $SCR; continue; fi
